@@ -163,6 +163,15 @@ static std::vector<Scenario> make_scenarios(bool thorough) {
                   Op{"resample", [] { return H(resample(rletter(24, 42), 3, 2)); }}},
                  {Op{"resample", [] { return H(resample(rletter(24, 43), 2, 3)); }},
                   Op{"welch", [] { return H(welch(cletter(64, 44), 16).pxx); }}}}, 1);
+        // the same estimator with different sizes in two threads (a function-local static work buffer / grid shared by all threads)
+        free_fn("H2.welch-two-sizes.t2",
+                {{Op{"welch(nfft 16)", [] { auto r = welch(rletter(64, 111), 16); return mix(H(r.pxx), H(r.f)); }}, Op{"mscohere(16)", [] { return H(mscohere(rletter(64, 112), rletter(64, 113), 16)); }}},
+                 {Op{"welch(nfft 32)", [] { auto r = welch(rletter(96, 114), 32); return mix(H(r.pxx), H(r.f)); }}, Op{"mscohere(32)", [] { return H(mscohere(rletter(96, 115), rletter(96, 116), 32)); }}}}, 2);
+        free_fn("H2.corr-sort.t2",
+                {{Op{"corr kendall(9)", [] { return (uint64_t)(1e12 * corr(rletter(9, 117), rletter(9, 118), Correlation::Kendall)); }}, Op{"sort/median(11)", [] { auto r = sort(rletter(11, 119)); return mix(H(r.first), (uint64_t)(1e12 * median(rletter(11, 120)))); }},
+                  Op{"corr spearman(9)", [] { return (uint64_t)(1e12 * corr(rletter(9, 121), rletter(9, 122), Correlation::Spearman)); }}},
+                 {Op{"corr kendall(14)", [] { return (uint64_t)(1e12 * corr(rletter(14, 123), rletter(14, 124), Correlation::Kendall)); }}, Op{"medfilt(20,5)", [] { auto x = rletter(20, 125); return H(medfilt(x, 5)); }},
+                  Op{"corr spearman(14)", [] { return (uint64_t)(1e12 * corr(rletter(14, 126), rletter(14, 127), Correlation::Spearman)); }}}}, 2);
         free_fn("H2.kaiser-fir1.t2",
                 {{Op{"kaiser", [] { return H(window::kaiser(16, 5.0)); }}, Op{"fir1", [] { return H(fir1(12, 0.3)); }}},
                  {Op{"kaiser", [] { return H(window::kaiser(9, 2.0)); }},
